@@ -98,7 +98,12 @@ func main() {
 		}
 		pr, err := ps.Recv()
 		if err != nil || len(pr.Puts) != 1 || pr.Puts[0].Status != proto.Status_OK {
-			fail(fmt.Errorf("priming put: %v %v", pr, err))
+			// the single-node shard refuses a plain put: recorded as what a client saw (no behaviour of
+			// WritePipe has such a response); nothing more can be learnt from this server
+			_ = enc.Encode(&event{Ev: "round", Base: 0})
+			_ = enc.Encode(&event{Ev: "recv", S: 0, K: 1, Ver: -1, Status: fmt.Sprintf("ERROR: put on a fresh key: %v %v", pr, err)})
+			cancel()
+			return
 		}
 		_ = ps.CloseSend()
 		cancel()
